@@ -584,8 +584,15 @@ func (w *c05W) openReader(slot int) {
 	var err error
 	off := syncer.Offset{RunId: id, Offset: x}
 	if !w.run(w.rdr[slot], fmt.Sprintf("IsValidOffset/NewReader(%d)", x), func() {
-		valid = w.ch.IsValidOffset(off)
-		rd, err = w.ch.NewReader(off)
+		// the two calls are not one: writer and collector run between them (a collection pass under memory pressure
+		// withdraws a snapshot that was valid a moment ago). Only an answer that persists is judged.
+		for i := 0; i < 4; i++ {
+			valid = w.ch.IsValidOffset(off)
+			rd, err = w.ch.NewReader(off)
+			if !valid || err == nil {
+				break
+			}
+		}
 	}) {
 		return
 	}
